@@ -13,7 +13,7 @@ from hgsim.util import canon, digest, mix
 
 ID = "C17"
 LEVEL = "exploration"
-BUDGET = {"quick": (8, 220, 45), "thorough": (16, 14000, 600)}
+BUDGET = {"quick": (8, 550, 90), "thorough": (16, 14000, 600)}
 RULE = (
     "seeded DAGs with 1-3 emit/wait_for pairs (producers that are functions, gates and auto-resolving interrupts; waits on emitted signals and on "
     "data names; several waiters per signal) and ring loops whose gate waits on the end-of-iteration signal (emitted by the last body node, or by "
